@@ -1,4 +1,117 @@
-/- Line protocol of C14: placeholder until the model of this property is built. -/
+import BertE.Gen.Http
+import BertE.Model.Http
+/- Line protocol of C14 (free text travels as hex of its ASCII codes; `-` is "none"):
+
+   `api  <session> <rule> <method> <args> <body> <jobKnown> <csrfOk> <fields>`
+   `hook <login> <pwd> <host> <owner> <slug> <fullName>  <route> <method> <creds> <event> <jsonOk>
+         <owner?> <slug?> <fullName?> <payloadOk> <inProgress> <closed> <isPr> <target>`
+
+   session : `N` (no session) | `K-:<0|1>` (user None) | `Ku<hex>:<0|1>`
+   args, fields : `-` | `<hex>=<hex>,...`
+   body    : `A` absent | `O<hex>=<val>,...` object | `L<val>,...` array | `S<val>` scalar;  val: `s<hex>` string, `j<hex>` other JSON
+   answer  : `<status> <loc|-> <job|->`, job = `<kind>|<user>|<settings>|<target>`, settings = `M<hex>=<val>,...` (sorted) | `R<body>`
+             or `unmodelled <why>` -/
 namespace BertE.Drv.C14
-def handle (_args : List String) : String := "bad-op"
+open BertE.Http
+
+def genTbl : Tbl := BertE.Gen.Http.tbl
+
+def hexDigit (n : Nat) : Char := if n < 10 then Char.ofNat (48 + n) else Char.ofNat (87 + n)
+
+def hex (s : String) : String :=
+  String.ofList (s.toList.flatMap fun c => [hexDigit (c.toNat / 16), hexDigit (c.toNat % 16)])
+
+def unhexDigit (c : Char) : Nat :=
+  if c.isDigit then c.toNat - 48 else c.toNat - 87
+
+def unhexL : List Char → List Char
+  | a :: b :: rest => Char.ofNat (16 * unhexDigit a + unhexDigit b) :: unhexL rest
+  | _ => []
+
+def unhex (s : String) : String := String.ofList (unhexL s.toList)
+
+def items (s : String) : List String := if s.isEmpty then [] else s.splitOn ","
+
+def tail1 (s : String) : String := String.ofList (s.toList.drop 1)
+
+def optStr (s : String) : Option String := if s == "-" then none else some (unhex (tail1 s))
+
+def parseVal (s : String) : Val :=
+  match s.toList with
+  | 's' :: r => .str (unhex (String.ofList r))
+  | _ :: r => .lit (unhex (String.ofList r))
+  | [] => .lit ""
+
+def parsePairs (s : String) : List (String × String) :=
+  if s == "-" then [] else
+  (items s).map fun it =>
+    match it.splitOn "=" with
+    | [a, b] => (unhex a, unhex b)
+    | _ => ("", "")
+
+def parseBody (s : String) : Body :=
+  match s.toList with
+  | 'O' :: r => .obj ((items (String.ofList r)).map fun it =>
+      match it.splitOn "=" with
+      | [a, b] => (unhex a, parseVal b)
+      | _ => ("", .lit ""))
+  | 'L' :: r => .arr ((items (String.ofList r)).map parseVal)
+  | 'S' :: r => .scalar (parseVal (String.ofList r))
+  | _ => .absent
+
+def parseSession (s : String) : Session :=
+  match s.toList with
+  | 'K' :: r =>
+    match (String.ofList r).splitOn ":" with
+    | [u, a] => { keyed := true, user := optStr u, admin := a == "1" }
+    | _ => { keyed := false, user := none, admin := false }
+  | _ => { keyed := false, user := none, admin := false }
+
+def showVal : Val → String
+  | .str s => "s" ++ hex s
+  | .lit t => "j" ++ hex t
+
+def showBody : Body → String
+  | .absent => "A"
+  | .obj kvs => "O" ++ ",".intercalate (kvs.map fun kv => hex kv.1 ++ "=" ++ showVal kv.2)
+  | .arr xs => "L" ++ ",".intercalate (xs.map showVal)
+  | .scalar v => "S" ++ showVal v
+
+def insertSorted (x : String) : List String → List String
+  | [] => [x]
+  | y :: ys => if x < y then x :: y :: ys else y :: insertSorted x ys
+
+def showSettings : Settings → String
+  | .map kvs => "M" ++ ",".intercalate ((kvs.map fun kv => hex kv.1 ++ "=" ++ showVal kv.2).foldr insertSorted [])
+  | .raw b => "R" ++ showBody b
+
+def showJob (j : Job) : String :=
+  j.kind ++ "|" ++ (match j.user with | some u => "u" ++ hex u | none => "-") ++ "|" ++ showSettings j.settings
+    ++ "|" ++ hex j.target
+
+def showOutcome : Outcome → String
+  | .unmodelled w => "unmodelled " ++ w
+  | .resp r => toString r.status ++ " " ++ (if r.loc.isEmpty then "-" else r.loc) ++ " " ++
+      (match r.job with | some j => showJob j | none => "-")
+
+def handle (args : List String) : String :=
+  match args with
+  | ["api", sess, rule, method, uargs, body, known, csrf, fields] =>
+    showOutcome (serve genTbl (parseSession sess)
+      { rule := unhex rule, method := method, args := parsePairs uargs, body := parseBody body,
+        jobKnown := known == "1", csrfOk := csrf == "1", fields := parsePairs fields })
+  | ["hook", login, pwd, host, owner, slug, full, route, method, creds, event, jsonOk, rowner, rslug, rfull,
+     payloadOk, inProgress, closed, isPr, target] =>
+    let cr := if creds == "-" then none else
+      match creds.splitOn ":" with
+      | [l, p] => some (unhex l, unhex p)
+      | _ => none
+    showOutcome (hook genTbl
+      { login := unhex login, pwd := unhex pwd, host := unhex host, owner := unhex owner, slug := unhex slug,
+        fullName := unhex full }
+      { route := unhex route, method := method, creds := cr, event := optStr event, jsonOk := jsonOk == "1",
+        owner := optStr rowner, slug := optStr rslug, fullName := optStr rfull, payloadOk := payloadOk == "1",
+        inProgress := inProgress == "1", closed := closed == "1", isPr := isPr == "1", target := unhex target })
+  | _ => "bad-op"
+
 end BertE.Drv.C14
